@@ -748,7 +748,11 @@ func checkReRegistration(name, machineSrc string, variant int) []engine.Violatio
 	t := mock.NewTree()
 	run := func() string {
 		t.Reset()
-		return xpx.RunMachine(m, t.At(ctxPositions[1]...)).String() + " listing=" + m.PrintMachine()
+		plain := xpx.RunMachine(m, t.At(ctxPositions[1]...)).String()
+		t.Reset()
+		// and with the context's validation mode on: the signature a call is checked against is the one
+		// the machine was compiled with
+		return plain + " validating=" + xpx.RunMachineValidating(m, t.At(ctxPositions[1]...)).String() + " listing=" + m.PrintMachine()
 	}
 	before := run()
 	args := []xpath.DatumTypeChecker{xpath.TypeIsLiteral}
@@ -767,7 +771,7 @@ func checkReRegistration(name, machineSrc string, variant int) []engine.Violatio
 }
 
 func functionMatrix(c *engine.Ctx) {
-	for _, rr := range [][2]string{{"vf-probe", "vf-probe(string(a))"}, {"contains", "contains(a, 'alt')"}, {"string-length", "string-length(a) > 2"}, {"concat", "concat(a, 'x')"}} {
+	for _, rr := range [][2]string{{"vf-probe", "vf-probe(string(a))"}, {"contains", "contains(a, 'alt')"}, {"string-length", "string-length(a) > 2"}, {"concat", "concat(a, 'x')"}, {"starts-with", "starts-with(a, 'al')"}, {"not", "not(a = 'x')"}, {"count", "count(l) > 1"}, {"substring", "substring(a, 2, 1)"}, {"translate", "translate(a, 'a', 'b')"}} {
 		for variant := 0; variant < 3; variant++ {
 			id := fmt.Sprintf("matrix:r:%s:%d", rr[0], variant)
 			if !c.Owns(id) || !c.Case(id) {
